@@ -100,4 +100,18 @@ CLAIMS = {
         "note": _STD_NOTE + " Undecided: that re-execution yields a result reflecting the external state.",
         "technique": "static analysis: CFG dominance by branch outcomes, method resolution through the class hierarchy, exception-guard analysis",
     },
+    "C07": {
+        "text": "Abstract interpretation of the job lifecycle including wait-queue re-entry: every non-idempotent in-memory effect reachable from the exec handler "
+        "runs at most once per job (once-latches on job attributes are understood); schedule-taint: no arrival-ordered state or uuid/time value flows into "
+        "preprocessing arguments or hashed call-graph quantities; child hashes sorted.",
+        "note": _STD_NOTE + " Known finding recorded: Handle fork keys (call_order) come from an arrival-ordered counter. Undecided: equality of recorded graphs across schedules.",
+        "technique": "static analysis: lifecycle abstract interpretation with transitive non-idempotent-effect summaries; intra-procedural taint (def-use)",
+    },
+    "C22": {
+        "text": "Exhaustive over all @db_retry methods of RedunBackendDb: guard-skip-after-partial-commit analysis (existence guard on model M, insert of M, "
+        "commit point, later writes) on each method's CFG with transitive commit/write summaries; destructive in-memory mutation before a commit; "
+        "the retry wrapper's rollback/raise/loop; decoration coverage of committing public methods.",
+        "note": _STD_NOTE + " Two known findings recorded (record_call_node, record_value). SQLAlchemy facts (pending rows become durable at the next commit on the session) are frozen. Undecided: database durability itself.",
+        "technique": "static analysis: commit-point / write effect summaries (fixpoint over self-calls), CFG reachability, decorator enumeration",
+    },
 }
